@@ -234,8 +234,41 @@ def replay(ck, prop, path, run):
         text = dif.get('replay', '')
         if 'hinted line: ' in text:
             line = text.split('hinted line: ', 1)[1].strip()
-        elif dif.get('case', '').startswith('W '):
+        elif dif.get('case', '').startswith('W ') or dif.get('case', '').startswith('V '):
             line = dif['case']
+        if line and line[:1] in ('W', 'V'):
+            # whole recorded run: run the real engine again on the case line (up to 3 times: the interleaving is the runtime's) and
+            # replay what it logs through the model
+            mode = 'flow' if line[:1] == 'W' else 'evflow'
+            d = vf.scratch_dir('%s_rp' % prop)
+            ck.rule('replay: the recorded case line through the real engine (mode %s) and the model, up to 3 runs' % mode)
+            cid = line.split(' ')[1]
+            for i in range(3):
+                hf = os.path.join(d, 'impl.txt')
+                mf = os.path.join(d, 'model.txt')
+                open(hf, 'w').write(line + '\n')
+                rc, out, err = vf.run_impl(mode, hf, env={'ZINOMA_VERIF_SCRATCH': os.path.join(d, 'run')})
+                r = vf.by_id(out).get(cid, '')
+                parts = dict(x.split('=', 1) for x in r.split(' ') if '=' in x and x[:2] in ('st', 'co', 'E=', 'O='))
+                if 'O' not in parts:
+                    ck.violation({'kind': 'correspondence', 'correspondence': rep.get('correspondence'),
+                                  'difference': {'case': line, 'implementation': r or 'no result', 'replay': text}}, found_input=False)
+                    break
+                if mode == 'flow':
+                    open(mf, 'w').write('%s %s %s %s\n' % (line, parts.get('status', '?'), parts.get('consumed', '0'), parts['O'][1:-1] or '-'))
+                else:
+                    open(mf, 'w').write('%s %s %s %s %s\n' % (line, parts.get('status', '?'), parts.get('consumed', '0'),
+                                                              parts.get('E', '[]')[1:-1] or '-', parts['O'][1:-1] or '-'))
+                m = vf.by_id(vf.run_model(mode, mf)).get(cid, 'NOT-EVALUATED')
+                ck.count(('replay', line, i), sample={'case': line, 'run': i, 'model_verdict': m, 'logged': r[:300]})
+                if m != 'OK':
+                    ck.violation({'kind': 'correspondence', 'correspondence': rep.get('correspondence'),
+                                  'difference': {'case': line, 'logged_flow': r, 'model_verdict': m, 'replay': text}}, found_input=False)
+                    break
+            else:
+                vf.log('[%s] replay: the real engine and the model agree on the recorded case in 3 runs' % prop)
+            vf.sh(['rm', '-rf', d])
+            return
         if line:
             mode = {'A': 'actor', 'R': 'root', 'W': 'flow'}.get(line[:1])
             if mode in ('actor', 'root'):
